@@ -80,6 +80,11 @@ def traces():
     for deck in ("f-lyt-shapes.pptx", "f-mst-shapes.pptx", "f-mst-placeholders.pptx"):
         evs = [{"op": "add_slide", "layout": 0}, pic(21)] + [{"op": "remove_layout", "layout": k} for k in (0, 1, 2, 0, 1, 0)] + [pic(22), pic(0, 0), pic(0, 1), ck, {"op": "restart"}, pic(23), pic(0, 0), ck]
         out.append(T("image-held-by-a-layout-%s" % deck, [{"deck": deck}], evs))
+    # a template with a logo on a layout no slide uses: new image, that layout removed, another new image of the same type, the logo again
+    for deck, k in (("default.pptx", 10), ("default.pptx", 3), ("f-sld-slides.pptx", 5), ("t-test_slides.pptx", 2)):
+        for later in (False, True):
+            evs = [{"op": "add_slide", "layout": 0}, pic(21)] + ([ck, {"op": "restart"}, pic(24)] if later else []) + [{"op": "remove_layout", "layout": k}, pic(22), pic(0, 0), pic(0, 1), ck, {"op": "restart"}, pic(23), pic(0, 0), ck]
+            out.append(T("logo-on-an-unused-layout-%s-%d-%d" % (deck, k, later), [{"deck": deck, "xform": [{"kind": "layout_logo", "k": k, "seed": 3}]}], evs))
     # non-contiguous / out-of-order slide part names, then additions (next slide partname must not collide)
     for deck in ("f-sld-slides.pptx", "t-test_slides.pptx", "f-prs-add-slide.pptx", "f-shp-shapes.pptx"):
         for mode in ("reverse", "rotate", "gaps", "shuffle", "lastfits", "firstbig", "midnext", "midnext2"):
